@@ -258,6 +258,14 @@ func (l *Lexer) prevChar() byte {
 	return l.input[l.readPosition-2]
 }
 
+// peekChar2 is the byte after the next one (0 at the end of the input)
+func (l *Lexer) peekChar2() byte {
+	if l.readPosition+1 >= len(l.input) {
+		return 0
+	}
+	return l.input[l.readPosition+1]
+}
+
 func (l *Lexer) readIdentifier() string {
 	position := l.position
 	for isLetter(l.ch) || isDigit(l.ch) {
@@ -307,7 +315,7 @@ func (l *Lexer) readHTML() string {
 	position := l.position
 
 	for l.ch != 0 {
-		if l.ch == '\\' && l.prevChar() == '\\' && l.peekChar() == '<' {
+		if l.ch == '\\' && l.prevChar() == '\\' && l.peekChar() == '<' && l.peekChar2() == '%' {
 			// escape escaping
 			l.readChar()
 			x := l.input[position : l.position-1]
